@@ -1,6 +1,1474 @@
-//! C12 — stub (monitor not built yet).
-use crate::core::Ctx;
+//! C12 — URIs: parsed form is faithful, equality/hash agree, path algebra
+//! is consistent.
+//!
+//! Workload: every string `rsync://`‖w and `https://`‖w for w over the small
+//! alphabet Σ = {a, A, b, /, ., :, space} up to a length bound (enumerated
+//! disjointly across shards by index), scheme-case and scheme-corruption
+//! variants, all ordered pairs of the accepted URIs up to a smaller bound,
+//! parent-of triples, sampled triples, `join` with every string over Σ up to
+//! a bound, then random byte strings, single-byte substitutions and
+//! structured random URI families with longer paths.
+//!
+//! Oracle: the laws of the property statement, written here on the *text*
+//! of the URIs (own splitter, own reference equality = scheme and authority
+//! ASCII-case-folded, rest exact). The library is never asked what the
+//! right answer is; it is only asked for its answer.
+
+use crate::core::{hex, Ctx, Rng, Stage, Tier};
+use bytes::Bytes;
+use rpki::uri::{Https, Rsync};
+use serde_json::{json, Value};
+use std::collections::hash_map::DefaultHasher;
+use std::collections::HashMap;
+use std::hash::{Hash, Hasher};
+use std::str::FromStr;
+
+const SIGMA: [u8; 7] = *b"aAb/.: ";
+
+//------------ reference model ------------------------------------------------
+
+/// Characters the type documentation forbids (SPACE, CONTROL and the listed
+/// punctuation) plus everything outside ASCII.
+fn forbidden(b: u8) -> bool {
+    b <= 0x20
+        || b >= 0x7f
+        || matches!(
+            b,
+            b'"' | b'#' | b'<' | b'>' | b'?' | b'[' | b'\\' | b']' | b'^' | b'`' | b'{' | b'|' | b'}'
+        )
+}
+
+fn scheme_ok(t: &[u8], name: &[u8]) -> bool {
+    t.len() >= 8 && t[..5].eq_ignore_ascii_case(name) && &t[5..8] == b"://"
+}
+
+/// End of the authority: the first slash after `scheme://` or the end.
+fn authority_end(t: &[u8]) -> usize {
+    if t.len() <= 8 {
+        return t.len();
+    }
+    t[8..].iter().position(|&c| c == b'/').map(|i| i + 8).unwrap_or(t.len())
+}
+
+/// Canonical form under the reference equality: scheme and authority
+/// case-folded, the rest untouched.
+fn ref_key(t: &[u8]) -> Vec<u8> {
+    let end = authority_end(t);
+    let mut k = t.to_vec();
+    k[..end].make_ascii_lowercase();
+    k
+}
+
+fn ref_eq(a: &[u8], b: &[u8]) -> bool {
+    ref_key(a) == ref_key(b)
+}
+
+/// Removes one trailing slash if there is one.
+fn strip1(t: &[u8]) -> &[u8] {
+    match t.last() {
+        Some(b'/') => &t[..t.len() - 1],
+        _ => t,
+    }
+}
+
+#[derive(Clone, Copy, Debug)]
+struct RsyncParts {
+    auth_end: usize,   // authority = t[8..auth_end]
+    module_end: usize, // module name = t[auth_end+1..module_end]
+    path_start: usize, // = module_end + 1
+}
+
+/// Splits an rsync URI text and checks the requirements of the statement:
+/// scheme, non-empty authority and module, a slash after the module, no
+/// empty or dot segment in module/path (a trailing slash is allowed).
+fn model_rsync(t: &[u8]) -> Result<RsyncParts, &'static str> {
+    if !scheme_ok(t, b"rsync") {
+        return Err("scheme");
+    }
+    let auth_end = authority_end(t);
+    if auth_end == 8 {
+        return Err("empty-authority");
+    }
+    if auth_end == t.len() {
+        return Err("no-module");
+    }
+    let rest = &t[auth_end + 1..];
+    let m = match rest.iter().position(|&c| c == b'/') {
+        Some(m) => m,
+        None => return Err("module-without-slash"),
+    };
+    if m == 0 {
+        return Err("empty-module");
+    }
+    let module_end = auth_end + 1 + m;
+    let path_start = module_end + 1;
+    let module = &t[auth_end + 1..module_end];
+    if module == b"." || module == b".." {
+        return Err("dot-segment");
+    }
+    let path = &t[path_start..];
+    if !path.is_empty() {
+        let segs: Vec<&[u8]> = path.split(|&c| c == b'/').collect();
+        for (i, s) in segs.iter().enumerate() {
+            if s.is_empty() && i + 1 != segs.len() {
+                return Err("empty-segment");
+            }
+            if *s == b"." || *s == b".." {
+                return Err("dot-segment");
+            }
+        }
+    }
+    Ok(RsyncParts { auth_end, module_end, path_start })
+}
+
+/// The two texts differ in nothing but the case of letters of the module
+/// name (used only to name the signature of a finding precisely).
+fn differs_in_module_case_only(a: &[u8], b: &[u8]) -> bool {
+    match (model_rsync(a), model_rsync(b)) {
+        (Ok(pa), Ok(pb)) => {
+            pa.auth_end == pb.auth_end
+                && pa.module_end == pb.module_end
+                && a[..pa.auth_end].eq_ignore_ascii_case(&b[..pb.auth_end])
+                && a[pa.auth_end..pa.path_start].eq_ignore_ascii_case(&b[pb.auth_end..pb.path_start])
+                && a[pa.auth_end..pa.path_start] != b[pb.auth_end..pb.path_start]
+        }
+        _ => false,
+    }
+}
+
+fn hash_of<T: Hash>(t: &T) -> u64 {
+    let mut h = DefaultHasher::new();
+    t.hash(&mut h);
+    h.finish()
+}
+
+fn show(t: &[u8]) -> Value {
+    match std::str::from_utf8(t) {
+        Ok(s) if !s.chars().any(|c| c.is_control()) => json!(s),
+        _ => json!({ "hex": hex(t) }),
+    }
+}
+
+//------------ findings -------------------------------------------------------
+
+struct Finding {
+    sig: String,
+    desc: String,
+    detail: Value,
+}
+
+#[derive(Default)]
+struct Findings {
+    list: Vec<Finding>,
+    /// not findings, only recorded: another constructor refused what from_slice accepted
+    alt_rejected: u64,
+    /// relative_to() was None for a join result although the base is its parent
+    relative_none_for_child: u64,
+}
+
+impl Findings {
+    fn push(&mut self, sig: String, desc: String, detail: Value) {
+        if self.list.len() < 256 {
+            self.list.push(Finding { sig, desc, detail });
+        }
+    }
+    fn flush(self, ctx: &mut Ctx) {
+        if self.alt_rejected > 0 {
+            ctx.obs("other_constructor_rejected_what_from_slice_accepted", self.alt_rejected);
+        }
+        if self.relative_none_for_child > 0 {
+            ctx.obs("relative_to_none_for_join_result", self.relative_none_for_child);
+        }
+        for f in self.list {
+            ctx.violation(&f.sig, &f.desc, f.detail);
+        }
+    }
+}
+
+type Law = Result<(), (String, String)>;
+
+fn law(name: &str, msg: String) -> Law {
+    Err((name.to_string(), msg))
+}
+
+//------------ value laws -----------------------------------------------------
+
+/// Laws every `Rsync` value must satisfy with respect to `text`, the text it
+/// is supposed to carry.
+fn rsync_value_laws(u: &Rsync, text: &[u8]) -> Law {
+    if u.as_slice() != text || u.as_str().as_bytes() != text || u.to_string().as_bytes() != text {
+        return law("text-changed", format!("as_str() = {:?}", u.as_str()));
+    }
+    if let Some(c) = text.iter().find(|c| forbidden(**c)) {
+        return law("forbidden-char", format!("contains byte {c:#04x}"));
+    }
+    let parts = match model_rsync(text) {
+        Ok(p) => p,
+        Err(why) => return law(&format!("invalid-{why}"), format!("value is not a valid rsync URI ({why})")),
+    };
+    let s = u.as_str();
+    let rec = format!("{}{}/{}/{}", &s[..8], u.authority(), u.module_name(), u.path());
+    if rec != s {
+        return law("recompose", format!("scheme+authority+module+path recompose to {rec:?}"));
+    }
+    let module = format!("{}{}/{}/", &s[..8], u.authority(), u.module_name());
+    if u.module() != module || !s.starts_with(u.module()) {
+        return law("module-not-prefix", format!("module() = {:?}", u.module()));
+    }
+    if u.authority().as_bytes() != &text[8..parts.auth_end]
+        || u.module_name().as_bytes() != &text[parts.auth_end + 1..parts.module_end]
+        || u.path().as_bytes() != &text[parts.path_start..]
+    {
+        return law(
+            "accessor-split",
+            format!(
+                "authority {:?} / module {:?} / path {:?} do not split the text at its slashes",
+                u.authority(),
+                u.module_name(),
+                u.path()
+            ),
+        );
+    }
+    Ok(())
+}
+
+/// The value's text re-parses to an equal value with the same components.
+fn rsync_reparse_laws(u: &Rsync) -> Law {
+    let text = u.as_slice().to_vec();
+    let v = match Rsync::from_slice(&text) {
+        Ok(v) => v,
+        Err(e) => return law("reparse-rejected", format!("own text does not parse: {e}")),
+    };
+    if !(v == *u) || !(*u == v) {
+        return law("reparse-unequal", "re-parsed value compares unequal".into());
+    }
+    if v.authority() != u.authority() || v.module_name() != u.module_name() || v.path() != u.path() {
+        return law(
+            "reparse-components",
+            format!(
+                "re-parsed components ({:?},{:?},{:?}) differ from ({:?},{:?},{:?})",
+                v.authority(),
+                v.module_name(),
+                v.path(),
+                u.authority(),
+                u.module_name(),
+                u.path()
+            ),
+        );
+    }
+    if hash_of(&v) != hash_of(u) {
+        return law("reparse-hash", "re-parsed value hashes differently".into());
+    }
+    Ok(())
+}
+
+fn https_value_laws(u: &Https, text: &[u8]) -> Law {
+    if u.as_slice() != text || u.as_str().as_bytes() != text || u.to_string().as_bytes() != text {
+        return law("text-changed", format!("as_str() = {:?}", u.as_str()));
+    }
+    if let Some(c) = text.iter().find(|c| forbidden(**c)) {
+        return law("forbidden-char", format!("contains byte {c:#04x}"));
+    }
+    if !scheme_ok(text, b"https") {
+        return law("invalid-scheme", "value does not start with https://".into());
+    }
+    let s = u.as_str();
+    if !u.scheme().as_str().eq_ignore_ascii_case(&s[..5]) {
+        return law("recompose", format!("scheme() = {:?}", u.scheme().as_str()));
+    }
+    let rec = format!("{}{}{}", &s[..8], u.authority(), u.path());
+    if rec != s {
+        return law("recompose", format!("scheme+authority+path recompose to {rec:?}"));
+    }
+    let end = authority_end(text);
+    if u.authority().as_bytes() != &text[8..end] || u.path().as_bytes() != &text[end..] {
+        return law(
+            "accessor-split",
+            format!(
+                "authority {:?} / path {:?} do not split the text at its first slash",
+                u.authority(),
+                u.path()
+            ),
+        );
+    }
+    Ok(())
+}
+
+fn https_reparse_laws(u: &Https) -> Law {
+    let text = u.as_slice().to_vec();
+    let v = match Https::from_slice(&text) {
+        Ok(v) => v,
+        Err(e) => return law("reparse-rejected", format!("own text does not parse: {e}")),
+    };
+    if !(v == *u) || !(*u == v) {
+        return law("reparse-unequal", "re-parsed value compares unequal".into());
+    }
+    if v.authority() != u.authority() || v.path() != u.path() {
+        return law(
+            "reparse-components",
+            format!(
+                "re-parsed components ({:?},{:?}) differ from ({:?},{:?})",
+                v.authority(),
+                v.path(),
+                u.authority(),
+                u.path()
+            ),
+        );
+    }
+    if hash_of(&v) != hash_of(u) {
+        return law("reparse-hash", "re-parsed value hashes differently".into());
+    }
+    Ok(())
+}
+
+//------------ single-URI checks ---------------------------------------------
+
+/// Laws for a freshly parsed rsync URI, its other constructors and parent().
+fn rsync_single(u: &Rsync, text: &[u8], f: &mut Findings) -> u64 {
+    let mut n = 1;
+    if let Err((l, m)) = rsync_value_laws(u, text) {
+        f.push(format!("C12:rsync-parse:{l}"), format!("accepted rsync URI: {m}"), json!({"input": show(text)}));
+        return n;
+    }
+    if let Err((l, m)) = rsync_reparse_laws(u) {
+        f.push(format!("C12:rsync-parse:{l}"), format!("accepted rsync URI: {m}"), json!({"input": show(text)}));
+    }
+    // the other constructors
+    let s = std::str::from_utf8(text).unwrap_or("");
+    let alt = [
+        Rsync::from_str(s).ok(),
+        Rsync::from_string(s.to_string()).ok(),
+        Rsync::from_bytes(Bytes::copy_from_slice(text)).ok(),
+        Rsync::try_from(s.to_string()).ok(),
+    ];
+    for (i, a) in alt.iter().enumerate() {
+        n += 1;
+        match a {
+            Some(a) if a == u && a.as_slice() == text && hash_of(a) == hash_of(u) => {}
+            Some(_) => f.push(
+                "C12:rsync-parse:constructors-disagree".into(),
+                format!("constructor #{i} (from_str/from_string/from_bytes/try_from) yields a value that differs from from_slice's"),
+                json!({"input": show(text)}),
+            ),
+            // acceptance is not obliged; the caller records it
+            None => f.alt_rejected += 1,
+        }
+    }
+    // reflexivity, also through the generic PartialEq<AsRef<[u8]>>
+    n += 1;
+    let c = u.clone();
+    if !(*u == c) || hash_of(u) != hash_of(&c) || !(*u == text) {
+        f.push("C12:rsync-eq-not-reflexive".into(), "value is not equal to its clone / own text".into(), json!({"input": show(text)}));
+    }
+    // parent
+    n += 1;
+    if let Some(p) = u.parent() {
+        let ptext = p.as_slice().to_vec();
+        let d = || json!({"uri": show(text), "parent": show(&ptext)});
+        if let Err((l, m)) = rsync_value_laws(&p, &ptext).and_then(|_| rsync_reparse_laws(&p)) {
+            f.push(format!("C12:rsync-parent:{l}"), format!("parent(): {m}"), d());
+        } else if !p.authority().eq_ignore_ascii_case(u.authority()) {
+            f.push("C12:rsync-parent:authority-changed".into(), "parent() has a different authority".into(), d());
+        } else if !p.is_parent_of(u) {
+            f.push("C12:rsync-parent:not-parent-of-child".into(), "parent(u).is_parent_of(u) is false".into(), d());
+        }
+    }
+    n
+}
+
+fn https_single(u: &Https, text: &[u8], f: &mut Findings) -> u64 {
+    let mut n = 1;
+    if let Err((l, m)) = https_value_laws(u, text) {
+        f.push(format!("C12:https-parse:{l}"), format!("accepted https URI: {m}"), json!({"input": show(text)}));
+        return n;
+    }
+    if let Err((l, m)) = https_reparse_laws(u) {
+        f.push(format!("C12:https-parse:{l}"), format!("accepted https URI: {m}"), json!({"input": show(text)}));
+    }
+    let s = std::str::from_utf8(text).unwrap_or("");
+    let alt = [
+        Https::from_str(s).ok(),
+        Https::from_string(s.to_string()).ok(),
+        Https::from_bytes(Bytes::copy_from_slice(text)).ok(),
+        Https::try_from(s.to_string()).ok(),
+    ];
+    for (i, a) in alt.iter().enumerate() {
+        n += 1;
+        match a {
+            Some(a) if a == u && a.as_slice() == text && hash_of(a) == hash_of(u) => {}
+            Some(_) => f.push(
+                "C12:https-parse:constructors-disagree".into(),
+                format!("constructor #{i} (from_str/from_string/from_bytes/try_from) yields a value that differs from from_slice's"),
+                json!({"input": show(text)}),
+            ),
+            None => f.alt_rejected += 1,
+        }
+    }
+    n += 1;
+    let c = u.clone();
+    if !(*u == c) || hash_of(u) != hash_of(&c) {
+        f.push("C12:https-eq-not-reflexive".into(), "value is not equal to its clone".into(), json!({"input": show(text)}));
+    }
+    n += 1;
+    if let Some(p) = u.parent() {
+        let ptext = p.as_slice().to_vec();
+        let d = || json!({"uri": show(text), "parent": show(&ptext)});
+        let end = authority_end(text);
+        let pend = authority_end(&ptext);
+        if let Err((l, m)) = https_value_laws(&p, &ptext).and_then(|_| https_reparse_laws(&p)) {
+            f.push(format!("C12:https-parent:{l}"), format!("parent(): {m}"), d());
+        } else if !ptext[8..pend].eq_ignore_ascii_case(&text[8..end]) {
+            f.push("C12:https-parent:authority-changed".into(), "parent() has a different authority".into(), d());
+        } else if !(ptext.len() < text.len() && text[end..].starts_with(&ptext[pend..])) {
+            f.push("C12:https-parent:not-above-child".into(), "path of parent() is not a proper prefix of the child's path".into(), d());
+        }
+    }
+    n
+}
+
+/// `base.join(arg)` for rsync. Returns (evaluations, joined?).
+fn rsync_join(base: &Rsync, arg: &[u8], f: &mut Findings) -> (u64, bool) {
+    let r = match base.join(arg) {
+        Ok(r) => r,
+        Err(_) => return (1, false),
+    };
+    let bt = base.as_slice();
+    let rt = r.as_slice().to_vec();
+    let d = || json!({"base": show(bt), "arg": show(arg), "result": show(&rt)});
+    if let Err((l, m)) = rsync_value_laws(&r, &rt).and_then(|_| rsync_reparse_laws(&r)) {
+        f.push(format!("C12:rsync-join:{l}"), format!("join(): {m}"), d());
+    } else if !r.authority().eq_ignore_ascii_case(base.authority()) {
+        f.push("C12:rsync-join:authority-changed".into(), "join() result has a different authority".into(), d());
+    } else if arg.is_empty() {
+        // join with the empty path: the statement only says "beneath base";
+        // the base itself (what the documentation promises) is accepted too
+        if !(r == *base) && !base.is_parent_of(&r) {
+            f.push("C12:rsync-join:empty-arg-elsewhere".into(), "join(\"\") is neither the base nor beneath it".into(), d());
+        }
+    } else if !base.is_parent_of(&r) {
+        f.push("C12:rsync-join:not-beneath-base".into(), "base.is_parent_of(base.join(p)) is false".into(), d());
+    } else {
+        // the relative path back from the result must lead to the result again
+        match r.relative_to(base) {
+            Some(x) if !x.is_empty() => match base.join(x.as_bytes()) {
+                Ok(again) if again == r && ref_eq(again.as_slice(), &rt) => {}
+                _ => f.push(
+                    "C12:rsync-join:relative_to-roundtrip".into(),
+                    "join(base, relative_to(join(base,p), base)) differs from join(base,p)".into(),
+                    d(),
+                ),
+            },
+            Some(_) => {
+                if !ref_eq(strip1(&rt), strip1(bt)) {
+                    f.push(
+                        "C12:rsync-join:relative_to-empty-for-unequal".into(),
+                        "relative_to(join(base,p), base) is the empty path although the two differ by more than a trailing slash".into(),
+                        d(),
+                    );
+                }
+            }
+            // the statement says nothing about when relative_to must answer; recorded only
+            None => f.relative_none_for_child += 1,
+        }
+    }
+    (1, true)
+}
+
+fn https_join(base: &Https, arg: &[u8], f: &mut Findings) -> (u64, bool) {
+    let r = match base.join(arg) {
+        Ok(r) => r,
+        Err(_) => return (1, false),
+    };
+    let bt = base.as_slice();
+    let rt = r.as_slice().to_vec();
+    let bend = authority_end(bt);
+    // the class of the base is part of the signature: joining onto a URI
+    // without any path is a different code path than onto one with a path
+    let class = if bend == bt.len() { "https-join-no-path" } else { "https-join" };
+    let d = || json!({"base": show(bt), "arg": show(arg), "result": show(&rt)});
+    if let Err((l, m)) = https_value_laws(&r, &rt).and_then(|_| https_reparse_laws(&r)) {
+        f.push(format!("C12:{class}:{l}"), format!("join(): {m}"), d());
+    } else {
+        let rend = authority_end(&rt);
+        if !rt[8..rend].eq_ignore_ascii_case(&bt[8..bend]) {
+            f.push(format!("C12:{class}:authority-changed"), "join() result has a different authority".into(), d());
+        } else if !rt[rend..].starts_with(&bt[bend..]) {
+            f.push(format!("C12:{class}:not-beneath-base"), "path of join() result does not start with the base path".into(), d());
+        }
+    }
+    (1, true)
+}
+
+//------------ enumeration ----------------------------------------------------
+
+/// Calls `f(global_index, w)` for every w over Σ with |w| <= max_len, in
+/// length-then-lexicographic order. The global index is what shards split on.
+fn for_each_word(max_len: usize, mut f: impl FnMut(u64, &[u8])) {
+    let mut g: u64 = 0;
+    for len in 0..=max_len {
+        let total = (SIGMA.len() as u64).pow(len as u32);
+        let mut w = vec![SIGMA[0]; len];
+        for idx in 0..total {
+            let mut x = idx;
+            for pos in (0..len).rev() {
+                w[pos] = SIGMA[(x % SIGMA.len() as u64) as usize];
+                x /= SIGMA.len() as u64;
+            }
+            f(g, &w);
+            g += 1;
+        }
+    }
+}
+
+fn words(max_len: usize) -> Vec<Vec<u8>> {
+    let mut v = Vec::new();
+    for_each_word(max_len, |_, w| v.push(w.to_vec()));
+    v
+}
+
+const RSYNC_SCHEMES: [&[u8]; 3] = [b"rsync://", b"RSYNC://", b"rSyNc://"];
+const HTTPS_SCHEMES: [&[u8]; 3] = [b"https://", b"HTTPS://", b"hTtPs://"];
+const BROKEN_SCHEMES: [&[u8]; 16] = [
+    b"", b"rsync:/", b"rsync//", b"rsync:", b"rsynd://", b"rsyn://", b"rsyncc://", b" rsync://", b"rsync ://",
+    b"http://", b"https:/", b"https//", b"httpss://", b"ttps://", b"https:\\\\", b"rsync:/ /",
+];
+
+struct Bounds {
+    /// |w| bound of the main enumeration
+    l_enum: usize,
+    /// |w| bound of the scheme variants / corruptions
+    l_variant: usize,
+    /// |w| bound of the rsync / https pair domains (plain scheme) and of their scheme variants
+    l_pair_rsync: usize,
+    l_pair_rsync_var: usize,
+    l_pair_https: usize,
+    l_pair_https_var: usize,
+    /// join arguments: all words up to this length for bases with |w| <= l_join_base, up to 1 beyond
+    l_join_arg: usize,
+    l_join_base_rsync: usize,
+    l_join_base_https: usize,
+}
+
+fn bounds(ctx: &Ctx) -> Bounds {
+    match (ctx.stage, ctx.tier) {
+        (Stage::Native, Tier::Thorough) => Bounds {
+            l_enum: 7, l_variant: 5, l_pair_rsync: 7, l_pair_rsync_var: 5, l_pair_https: 5, l_pair_https_var: 3,
+            l_join_arg: 4, l_join_base_rsync: 7, l_join_base_https: 5,
+        },
+        (Stage::Native, Tier::Quick) => Bounds {
+            l_enum: 6, l_variant: 4, l_pair_rsync: 6, l_pair_rsync_var: 5, l_pair_https: 4, l_pair_https_var: 3,
+            l_join_arg: 3, l_join_base_rsync: 6, l_join_base_https: 4,
+        },
+        (Stage::Asan, _) | (Stage::Valgrind, _) => Bounds {
+            l_enum: 5, l_variant: 4, l_pair_rsync: 6, l_pair_rsync_var: 4, l_pair_https: 3, l_pair_https_var: 2,
+            l_join_arg: 3, l_join_base_rsync: 5, l_join_base_https: 3,
+        },
+        // Miri: the pair domains are fixed lists (MIRI_RSYNC / MIRI_HTTPS), not enumerated
+        (Stage::Miri, _) => Bounds {
+            l_enum: 4, l_variant: 1, l_pair_rsync: 0, l_pair_rsync_var: 0, l_pair_https: 0, l_pair_https_var: 0,
+            l_join_arg: 1, l_join_base_rsync: 4, l_join_base_https: 4,
+        },
+    }
+}
+
+/// Pair domains of the Miri stage: small, but with every relation the laws
+/// talk about (equal by case, equal up to a slash, parent chains of depth 3,
+/// name-prefix siblings, other module / authority).
+const MIRI_RSYNC: [&str; 18] = [
+    "rsync://a/a/", "rsync://A/a/", "RSYNC://a/a/", "rsync://a/A/", "rsync://a/a/a", "rsync://a/a/a/", "rsync://a/a/A",
+    "rsync://a/a/a/b", "rsync://a/a/a/b/", "rsync://a/a/ab", "rsync://a/a/a/b/a.b", "rsync://A/a/a/b", "rsync://b/a/",
+    "rsync://a/b/", "rsync://a/a/b", "rsync://a:1/a/", "rsync://a/a/...", "rSyNc://a/a/a/b/",
+];
+const MIRI_HTTPS: [&str; 12] = [
+    "https://", "https://a", "https://A", "HTTPS://a", "https://a/", "https://a/b", "https://A/b", "https://a/B",
+    "https://a/b/", "https://a//", "https://a/b/a.b", "https://b",
+];
+
+//------------ pair domains ---------------------------------------------------
+
+struct Entry<U> {
+    text: Vec<u8>,
+    uri: U,
+    hash: u64,
+    /// id of the reference-equality class
+    cls: u32,
+    /// id of the class under "equal up to one trailing slash"
+    scls: u32,
+    /// index of the first member of the same reference-equality class
+    rep: usize,
+    /// bucket id: scheme, authority and module name all case-folded (rsync)
+    bucket: u32,
+}
+
+fn intern(map: &mut HashMap<Vec<u8>, u32>, key: Vec<u8>) -> u32 {
+    let n = map.len() as u32;
+    *map.entry(key).or_insert(n)
+}
+
+fn build_domain<U: Hash>(items: Vec<(Vec<u8>, U)>, rsync: bool) -> (Vec<Entry<U>>, Vec<Vec<usize>>) {
+    let mut cls_map = HashMap::new();
+    let mut scls_map = HashMap::new();
+    let mut bucket_map = HashMap::new();
+    let mut first_of_cls: HashMap<u32, usize> = HashMap::new();
+    let mut out: Vec<Entry<U>> = Vec::with_capacity(items.len());
+    let mut buckets: Vec<Vec<usize>> = Vec::new();
+    for (text, uri) in items {
+        let cls = intern(&mut cls_map, ref_key(&text));
+        let scls = intern(&mut scls_map, ref_key(strip1(&text)));
+        let bkey = if rsync {
+            match model_rsync(&text) {
+                Ok(p) => text[..p.path_start].to_ascii_lowercase(),
+                Err(_) => text.to_ascii_lowercase(),
+            }
+        } else {
+            text[..authority_end(&text)].to_ascii_lowercase()
+        };
+        let bucket = intern(&mut bucket_map, bkey);
+        let idx = out.len();
+        let rep = *first_of_cls.entry(cls).or_insert(idx);
+        if bucket as usize >= buckets.len() {
+            buckets.push(Vec::new());
+        }
+        buckets[bucket as usize].push(idx);
+        let hash = hash_of(&uri);
+        out.push(Entry { text, uri, hash, cls, scls, rep, bucket });
+    }
+    (out, buckets)
+}
+
+/// All laws about one ordered pair of rsync URIs. Returns (is related, a is parent of b).
+#[inline]
+fn rsync_pair(dom: &[Entry<Rsync>], i: usize, j: usize, f: &mut Findings) -> (bool, bool) {
+    let (a, b) = (&dom[i], &dom[j]);
+    let eq = a.uri == b.uri;
+    let want_eq = a.cls == b.cls;
+    if eq != want_eq {
+        f.push(
+            "C12:rsync-eq-vs-reference".into(),
+            format!("(a == b) is {eq} but scheme/authority-folded texts are {}", if want_eq { "equal" } else { "different" }),
+            json!({"a": show(&a.text), "b": show(&b.text)}),
+        );
+    }
+    if eq && a.hash != b.hash {
+        f.push("C12:rsync-eq-hash".into(), "equal URIs hash differently".into(), json!({"a": show(&a.text), "b": show(&b.text)}));
+    }
+    let rel = a.uri.relative_to(&b.uri);
+    let same_up_to_slash = a.scls == b.scls;
+    let case = |a: &[u8], b: &[u8]| if differs_in_module_case_only(strip_to_module(a), strip_to_module(b)) { "-module-case" } else { "" };
+    match rel {
+        Some("") => {
+            if !same_up_to_slash {
+                f.push(
+                    format!("C12:rsync-relative_to{}:empty-for-unequal", case(&a.text, &b.text)),
+                    "relative_to() reports the empty path for URIs that are not equal up to one trailing slash".into(),
+                    json!({"self": show(&a.text), "other": show(&b.text)}),
+                );
+            }
+        }
+        Some(x) => {
+            if same_up_to_slash {
+                f.push(
+                    "C12:rsync-relative_to:nonempty-for-equal".into(),
+                    format!("relative_to() reports {x:?} for URIs equal up to one trailing slash"),
+                    json!({"self": show(&a.text), "other": show(&b.text)}),
+                );
+            }
+            match b.uri.join(x.as_bytes()) {
+                Ok(r) if r == a.uri && a.uri == r && ref_eq(r.as_slice(), &a.text) => {}
+                other => f.push(
+                    format!("C12:rsync-relative_to{}:join-roundtrip", case(&a.text, &b.text)),
+                    format!(
+                        "other.join(self.relative_to(other)) = {} which is not self",
+                        match &other {
+                            Ok(r) => format!("{:?}", r.as_str()),
+                            Err(e) => format!("Err({e})"),
+                        }
+                    ),
+                    json!({"self": show(&a.text), "other": show(&b.text), "relative": x}),
+                ),
+            }
+        }
+        None => {
+            if same_up_to_slash {
+                f.push(
+                    "C12:rsync-relative_to:none-for-equal".into(),
+                    "relative_to() is None for URIs equal up to one trailing slash".into(),
+                    json!({"self": show(&a.text), "other": show(&b.text)}),
+                );
+            }
+        }
+    }
+    let par = a.uri.is_parent_of(&b.uri);
+    if par && want_eq {
+        f.push("C12:rsync-is_parent_of:reflexive".into(), "a URI is a parent of an equal URI".into(), json!({"a": show(&a.text), "b": show(&b.text)}));
+    }
+    if a.rep != i || b.rep != j {
+        let par2 = dom[a.rep].uri.is_parent_of(&dom[b.rep].uri);
+        if par2 != par {
+            f.push(
+                "C12:rsync-is_parent_of:not-invariant-under-equality".into(),
+                format!("is_parent_of(a,b) = {par} but {par2} after replacing both by equal URIs"),
+                json!({"a": show(&a.text), "b": show(&b.text), "a_equal": show(&dom[a.rep].text), "b_equal": show(&dom[b.rep].text)}),
+            );
+        }
+    }
+    (want_eq || eq || rel.is_some() || par, par)
+}
+
+/// For classification only: the text up to and including the slash after
+/// the module name plus a dummy tail, so that two URIs with different paths
+/// can be compared for "module name differs in case only".
+fn strip_to_module(t: &[u8]) -> &[u8] {
+    match model_rsync(t) {
+        Ok(p) => &t[..p.path_start],
+        Err(_) => t,
+    }
+}
+
+//------------ random generators ----------------------------------------------
+
+const HOST_CHARS: &[u8] = b"abcxyzABCXYZ0129.-:";
+const SEG_CHARS: &[u8] = b"abcxyzABCXYZ0129.-_~!$%&'()*+,;=:";
+
+fn rand_token(rng: &mut Rng, chars: &[u8], min: usize, max: usize) -> Vec<u8> {
+    loop {
+        let n = rng.range(min as u64, max as u64) as usize;
+        let t: Vec<u8> = (0..n).map(|_| *rng.pick(chars)).collect();
+        if t != b"." && t != b".." {
+            return t;
+        }
+    }
+}
+
+fn flip_case(rng: &mut Rng, t: &mut [u8]) {
+    for c in t.iter_mut() {
+        if c.is_ascii_alphabetic() && rng.chance(1, 2) {
+            *c ^= 0x20;
+        }
+    }
+}
+
+/// A family of related rsync URI texts: one base, its ancestors, trailing
+/// slash variants, case variants in every component, a sibling.
+fn rsync_family(rng: &mut Rng) -> Vec<Vec<u8>> {
+    let auth = rand_token(rng, HOST_CHARS, 1, 10);
+    let module = rand_token(rng, SEG_CHARS, 1, 6);
+    let nseg = rng.below(5) as usize;
+    let segs: Vec<Vec<u8>> = (0..nseg).map(|_| rand_token(rng, SEG_CHARS, 1, 5)).collect();
+    let build = |scheme: &[u8], auth: &[u8], module: &[u8], segs: &[Vec<u8>], slash: bool| {
+        let mut t = scheme.to_vec();
+        t.extend_from_slice(auth);
+        t.push(b'/');
+        t.extend_from_slice(module);
+        t.push(b'/');
+        for (i, s) in segs.iter().enumerate() {
+            if i > 0 {
+                t.push(b'/');
+            }
+            t.extend_from_slice(s);
+        }
+        if slash && !segs.is_empty() {
+            t.push(b'/');
+        }
+        t
+    };
+    let mut fam = Vec::new();
+    for k in 0..=nseg {
+        fam.push(build(b"rsync://", &auth, &module, &segs[..k], false));
+        if k > 0 && rng.chance(2, 3) {
+            fam.push(build(b"rsync://", &auth, &module, &segs[..k], true));
+        }
+    }
+    // case variants
+    let mut a2 = auth.clone();
+    flip_case(rng, &mut a2);
+    fam.push(build(*rng.pick(&RSYNC_SCHEMES), &a2, &module, &segs, rng.bool()));
+    let mut m2 = module.clone();
+    flip_case(rng, &mut m2);
+    fam.push(build(b"rsync://", &auth, &m2, &segs, rng.bool()));
+    if nseg > 0 {
+        let mut s2 = segs.clone();
+        let k = rng.usize_below(nseg);
+        flip_case(rng, &mut s2[k]);
+        fam.push(build(b"rsync://", &auth, &module, &s2, false));
+        // sibling sharing a name prefix
+        let mut s3 = segs.clone();
+        s3[nseg - 1].push(*rng.pick(SEG_CHARS));
+        fam.push(build(b"rsync://", &auth, &module, &s3, false));
+        let mut s4 = segs[..nseg - 1].to_vec();
+        s4.push(rand_token(rng, SEG_CHARS, 1, 4));
+        fam.push(build(b"rsync://", &a2, &module, &s4, rng.bool()));
+    }
+    fam
+}
+
+fn https_family(rng: &mut Rng) -> Vec<Vec<u8>> {
+    let auth = rand_token(rng, HOST_CHARS, 0, 10);
+    let nseg = rng.below(5) as usize;
+    let segs: Vec<Vec<u8>> = (0..nseg).map(|_| rand_token(rng, SEG_CHARS, 0, 5)).collect();
+    let build = |scheme: &[u8], auth: &[u8], segs: &[Vec<u8>], slash: bool| {
+        let mut t = scheme.to_vec();
+        t.extend_from_slice(auth);
+        for s in segs {
+            t.push(b'/');
+            t.extend_from_slice(s);
+        }
+        if slash {
+            t.push(b'/');
+        }
+        t
+    };
+    let mut fam = Vec::new();
+    for k in 0..=nseg {
+        fam.push(build(b"https://", &auth, &segs[..k], false));
+        if rng.chance(1, 2) {
+            fam.push(build(b"https://", &auth, &segs[..k], true));
+        }
+    }
+    let mut a2 = auth.clone();
+    flip_case(rng, &mut a2);
+    fam.push(build(*rng.pick(&HTTPS_SCHEMES), &a2, &segs, rng.bool()));
+    if nseg > 0 {
+        let mut s2 = segs.clone();
+        let k = rng.usize_below(nseg);
+        flip_case(rng, &mut s2[k]);
+        fam.push(build(b"https://", &auth, &s2, false));
+    }
+    fam
+}
+
+fn rand_join_arg(rng: &mut Rng) -> Vec<u8> {
+    match rng.below(10) {
+        0 => Vec::new(),
+        1 => b"..".to_vec(),
+        2 => {
+            let mut t = rand_token(rng, SEG_CHARS, 1, 4);
+            t.extend_from_slice(b"/../x");
+            t
+        }
+        3 => {
+            let mut t = b"/".to_vec();
+            t.extend(rand_token(rng, SEG_CHARS, 1, 4));
+            t
+        }
+        4 => {
+            let mut t = rand_token(rng, SEG_CHARS, 1, 4);
+            t.extend_from_slice(b"//");
+            t.extend(rand_token(rng, SEG_CHARS, 1, 4));
+            t
+        }
+        5 => {
+            let n = rng.range(1, 6) as usize;
+            rng.bytes(n)
+        }
+        _ => {
+            let n = rng.range(1, 3);
+            let mut t = Vec::new();
+            for i in 0..n {
+                if i > 0 {
+                    t.push(b'/');
+                }
+                t.extend(rand_token(rng, SEG_CHARS, 1, 5));
+            }
+            if rng.chance(1, 3) {
+                t.push(b'/');
+            }
+            t
+        }
+    }
+}
+
+//------------ the monitor ----------------------------------------------------
+
+struct Counters {
+    evals: u64,
+    rsync_accepted: u64,
+    rsync_rejected: u64,
+    https_accepted: u64,
+    https_rejected: u64,
+    model_valid_but_rejected: u64,
+    joins_ok: u64,
+    joins_err: u64,
+    parents_some: u64,
+    parents_none: u64,
+}
+
+/// Parses `text` with both parsers and applies the single-URI laws.
+/// Returns the parsed values.
+fn offer(ctx: &mut Ctx, c: &mut Counters, text: &[u8], what: &str) -> (Option<Rsync>, Option<Https>) {
+    let res = ctx.no_panic(what, || json!({"input": show(text)}), || {
+        let mut f = Findings::default();
+        let mut n = 2u64;
+        let r = Rsync::from_slice(text).ok();
+        let h = Https::from_slice(text).ok();
+        let mut parents = (0u64, 0u64);
+        if let Some(u) = &r {
+            n += rsync_single(u, text, &mut f);
+            if u.parent().is_some() { parents.0 += 1 } else { parents.1 += 1 }
+        }
+        if let Some(u) = &h {
+            n += https_single(u, text, &mut f);
+            if u.parent().is_some() { parents.0 += 1 } else { parents.1 += 1 }
+        }
+        (r, h, f, n, parents)
+    });
+    match res {
+        Some((r, h, f, n, parents)) => {
+            c.evals += n;
+            c.parents_some += parents.0;
+            c.parents_none += parents.1;
+            if r.is_some() {
+                c.rsync_accepted += 1;
+            } else {
+                c.rsync_rejected += 1;
+                if !text.iter().any(|b| forbidden(*b)) && model_rsync(text).is_ok() {
+                    // not demanded by the statement; recorded only
+                    c.model_valid_but_rejected += 1;
+                    if ctx.wants_sample("rsync rejected though the statement allows it") {
+                        let why = Rsync::from_slice(text).err().map(|e| e.to_string());
+                        ctx.sample("rsync rejected though the statement allows it", || json!({"input": show(text), "error": why}));
+                    }
+                }
+            }
+            if h.is_some() { c.https_accepted += 1 } else { c.https_rejected += 1 }
+            f.flush(ctx);
+            (r, h)
+        }
+        None => (None, None),
+    }
+}
 
 pub fn run(ctx: &mut Ctx) {
-    ctx.notes.push("C12: monitor not built yet".into());
+    let b = bounds(ctx);
+    let miri_scale: u64 = if ctx.tier == Tier::Thorough { 4 } else { 1 };
+    let mut c = Counters {
+        evals: 0, rsync_accepted: 0, rsync_rejected: 0, https_accepted: 0, https_rejected: 0,
+        model_valid_but_rejected: 0, joins_ok: 0, joins_err: 0, parents_some: 0, parents_none: 0,
+    };
+    let join_args = words(b.l_join_arg);
+    let join_args_short = words(1);
+
+    //---- 1. bounded-exhaustive enumeration, disjoint across shards ----------
+    let mut rsync_items: Vec<(Vec<u8>, Rsync)> = Vec::new();
+    let mut https_items: Vec<(Vec<u8>, Https)> = Vec::new();
+    let mut enum_accepted: u64 = 0;
+    let miri = ctx.is_miri();
+    let miri_stride: u64 = if ctx.tier == Tier::Thorough { 3 } else { 18 };
+    for_each_word(b.l_enum, |g, w| {
+        let mine = ctx.mine(g);
+        for (scheme, is_rsync) in [(RSYNC_SCHEMES[0], true), (HTTPS_SCHEMES[0], false)] {
+            let in_pairs = !miri && w.len() <= if is_rsync { b.l_pair_rsync } else { b.l_pair_https };
+            if !mine && !in_pairs {
+                continue;
+            }
+            let mut text = scheme.to_vec();
+            text.extend_from_slice(w);
+            // every shard needs the whole pair domain
+            if in_pairs {
+                if is_rsync {
+                    if let Ok(u) = Rsync::from_slice(&text) {
+                        rsync_items.push((text.clone(), u));
+                    }
+                } else if let Ok(u) = Https::from_slice(&text) {
+                    https_items.push((text.clone(), u));
+                }
+            }
+            if !mine {
+                continue;
+            }
+            // Miri is ~10^4 times slower: every miri_stride-th word of the shard's share
+            if miri && (g / ctx.nshards.max(1)) % miri_stride != 0 {
+                continue;
+            }
+            let (r, h) = offer(ctx, &mut c, &text, "parse");
+            if r.is_some() || h.is_some() {
+                enum_accepted += 1;
+            }
+            if let Some(u) = &r {
+                let args = if w.len() <= b.l_join_base_rsync { &join_args } else { &join_args_short };
+                let res = ctx.no_panic("rsync-join", || json!({"base": show(&text)}), || {
+                    let mut f = Findings::default();
+                    let (mut ok, mut err) = (0u64, 0u64);
+                    for a in args {
+                        let (_, joined) = rsync_join(u, a, &mut f);
+                        if joined { ok += 1 } else { err += 1 }
+                    }
+                    (f, ok, err)
+                });
+                if let Some((f, ok, err)) = res {
+                    c.joins_ok += ok;
+                    c.joins_err += err;
+                    c.evals += ok + err;
+                    f.flush(ctx);
+                }
+                if w.len() >= 6 && u.path().contains('/') && ctx.wants_sample("rsync accepted") {
+                    ctx.sample("rsync accepted", || json!({
+                        "input": show(&text), "authority": u.authority(), "module": u.module_name(), "path": u.path(),
+                        "parent": u.parent().map(|p| p.as_str().to_string()),
+                    }));
+                }
+            }
+            if let Some(u) = &h {
+                let args = if w.len() <= b.l_join_base_https { &join_args } else { &join_args_short };
+                let res = ctx.no_panic("https-join", || json!({"base": show(&text)}), || {
+                    let mut f = Findings::default();
+                    let (mut ok, mut err) = (0u64, 0u64);
+                    for a in args {
+                        let (_, joined) = https_join(u, a, &mut f);
+                        if joined { ok += 1 } else { err += 1 }
+                    }
+                    (f, ok, err)
+                });
+                if let Some((f, ok, err)) = res {
+                    c.joins_ok += ok;
+                    c.joins_err += err;
+                    c.evals += ok + err;
+                    f.flush(ctx);
+                }
+                if !is_rsync && w.len() >= 4 && w[1..w.len() - 1].contains(&b'/') && ctx.wants_sample("https accepted") {
+                    ctx.sample("https accepted", || json!({
+                        "input": show(&text), "authority": u.authority(), "path": u.path(),
+                        "parent": u.parent().map(|p| p.as_str().to_string()),
+                    }));
+                }
+            }
+            if is_rsync && r.is_none() && w.len() >= 4 && w.iter().filter(|c| **c == b'/').count() >= 2 && ctx.wants_sample("rsync rejected") {
+                let why = Rsync::from_slice(&text).err().map(|e| e.to_string());
+                ctx.sample("rsync rejected", || json!({"input": show(&text), "error": why}));
+            }
+        }
+    });
+    // scheme-case variants and corrupted schemes (sharded by their own index)
+    {
+        let l_var_all = b.l_variant.max(b.l_pair_rsync_var).max(b.l_pair_https_var);
+        let mut g: u64 = 0;
+        for_each_word(l_var_all, |_, w| {
+            for s in RSYNC_SCHEMES[1..].iter().chain(HTTPS_SCHEMES[1..].iter()) {
+                g += 1;
+                let mut text = s.to_vec();
+                text.extend_from_slice(w);
+                if ctx.mine(g) && w.len() <= b.l_variant && (!miri || g % 3 == 0) {
+                    let (r, h) = offer(ctx, &mut c, &text, "parse-scheme-case");
+                    if r.is_some() || h.is_some() {
+                        enum_accepted += 1;
+                    }
+                }
+                if !miri && w.len() <= b.l_pair_rsync_var {
+                    if let Ok(u) = Rsync::from_slice(&text) {
+                        rsync_items.push((text.clone(), u));
+                    }
+                }
+                if !miri && w.len() <= b.l_pair_https_var {
+                    if let Ok(u) = Https::from_slice(&text) {
+                        https_items.push((text.clone(), u));
+                    }
+                }
+            }
+            if w.len() <= b.l_variant.min(4) {
+                for s in BROKEN_SCHEMES.iter() {
+                    g += 1;
+                    if !ctx.mine(g) || (miri && g % 5 != 0) {
+                        continue;
+                    }
+                    let mut text = s.to_vec();
+                    text.extend_from_slice(w);
+                    let (r, h) = offer(ctx, &mut c, &text, "parse-broken-scheme");
+                    if r.is_some() || h.is_some() {
+                        // happens when the damaged scheme plus w spells a valid URI again ("rsync:/" + "/a/a/")
+                        ctx.obs("damaged_scheme_texts_accepted", 1);
+                    }
+                }
+            }
+        });
+    }
+    ctx.disjoint_distinct += enum_accepted;
+    if ctx.stage == Stage::Native {
+        ctx.exhaustive = Some(true);
+    }
+
+    //---- 2. all ordered pairs ------------------------------------------------
+    if ctx.is_miri() {
+        for (i, t) in MIRI_RSYNC.iter().chain(MIRI_HTTPS.iter()).enumerate() {
+            if !ctx.mine(i as u64) {
+                continue;
+            }
+            let (r, h) = offer(ctx, &mut c, t.as_bytes(), "parse");
+            let res = ctx.no_panic("join", || json!({"base": t}), || {
+                let mut f = Findings::default();
+                let (mut ok, mut err) = (0u64, 0u64);
+                for a in [&b""[..], b"a", b"a/", b"b/a", b"/a", b"..", b"a//b", b" ", b"\xff"] {
+                    let joined = match (&r, &h) {
+                        (Some(u), _) => rsync_join(u, a, &mut f).1,
+                        (_, Some(u)) => https_join(u, a, &mut f).1,
+                        _ => false,
+                    };
+                    if joined { ok += 1 } else { err += 1 }
+                }
+                (f, ok, err)
+            });
+            if let Some((f, ok, err)) = res {
+                c.joins_ok += ok;
+                c.joins_err += err;
+                c.evals += ok + err;
+                f.flush(ctx);
+            }
+        }
+        rsync_items = MIRI_RSYNC.iter().filter_map(|t| Rsync::from_str(t).ok().map(|u| (t.as_bytes().to_vec(), u))).collect();
+        https_items = MIRI_HTTPS.iter().filter_map(|t| Https::from_str(t).ok().map(|u| (t.as_bytes().to_vec(), u))).collect();
+    }
+    let (rdom, rbuckets) = build_domain(rsync_items, true);
+    let (hdom, _hbuckets) = build_domain(https_items, false);
+    ctx.obs_max("rsync_pair_domain", rdom.len() as u64);
+    ctx.obs_max("https_pair_domain", hdom.len() as u64);
+    let mut related_pairs: u64 = 0;
+    let mut parent_pairs: u64 = 0;
+    let mut parent_triples: u64 = 0;
+    let mut equal_pairs: u64 = 0;
+    for i in 0..rdom.len() {
+        if !ctx.mine(i as u64) {
+            continue;
+        }
+        let res = ctx.no_panic("rsync-pairs", || json!({"a": show(&rdom[i].text)}), || {
+            let mut f = Findings::default();
+            let mut related = 0u64;
+            let mut children: Vec<usize> = Vec::new();
+            for j in 0..rdom.len() {
+                let (rel, par) = rsync_pair(&rdom, i, j, &mut f);
+                if rel {
+                    related += 1;
+                }
+                if par {
+                    children.push(j);
+                }
+            }
+            // transitivity: a > b and b > c implies a > c, for every child b and every c in b's module bucket
+            let mut triples = 0u64;
+            for &j in &children {
+                for &k in &rbuckets[rdom[j].bucket as usize] {
+                    if rdom[j].uri.is_parent_of(&rdom[k].uri) {
+                        triples += 1;
+                        if !rdom[i].uri.is_parent_of(&rdom[k].uri) {
+                            f.push(
+                                "C12:rsync-is_parent_of:not-transitive".into(),
+                                "a is parent of b, b is parent of c, but a is not parent of c".into(),
+                                json!({"a": show(&rdom[i].text), "b": show(&rdom[j].text), "c": show(&rdom[k].text)}),
+                            );
+                        }
+                    }
+                }
+            }
+            (f, related, children.len() as u64, triples)
+        });
+        if let Some((f, related, nchildren, triples)) = res {
+            c.evals += rdom.len() as u64 + triples;
+            related_pairs += related;
+            parent_pairs += nchildren;
+            parent_triples += triples;
+            f.flush(ctx);
+        }
+    }
+    for i in 0..hdom.len() {
+        if !ctx.mine(i as u64) {
+            continue;
+        }
+        let res = ctx.no_panic("https-pairs", || json!({"a": show(&hdom[i].text)}), || {
+            let mut f = Findings::default();
+            let mut equal = 0u64;
+            let a = &hdom[i];
+            for bb in hdom.iter() {
+                let eq = a.uri == bb.uri;
+                let want = a.cls == bb.cls;
+                if eq != want {
+                    f.push(
+                        "C12:https-eq-vs-reference".into(),
+                        format!("(a == b) is {eq} but scheme/authority-folded texts are {}", if want { "equal" } else { "different" }),
+                        json!({"a": show(&a.text), "b": show(&bb.text)}),
+                    );
+                }
+                if eq && a.hash != bb.hash {
+                    f.push("C12:https-eq-hash".into(), "equal URIs hash differently".into(), json!({"a": show(&a.text), "b": show(&bb.text)}));
+                }
+                if want {
+                    equal += 1;
+                }
+            }
+            (f, equal)
+        });
+        if let Some((f, equal)) = res {
+            c.evals += hdom.len() as u64;
+            equal_pairs += equal;
+            f.flush(ctx);
+        }
+    }
+    ctx.disjoint_distinct += related_pairs + equal_pairs;
+    ctx.obs("rsync_related_pairs", related_pairs);
+    ctx.obs("rsync_parent_pairs", parent_pairs);
+    ctx.obs("rsync_parent_triples", parent_triples);
+    ctx.obs("https_equal_pairs", equal_pairs);
+
+    //---- 3. sampled triples --------------------------------------------------
+    {
+        let mut rng = ctx.rng("triples");
+        let n = ctx.stage_budget((1_200_000, 16_000_000), 100_000, 80 * miri_scale, 0);
+        let mut f = Findings::default();
+        let mut eq_chains = 0u64;
+        if rdom.len() >= 3 {
+            for _ in 0..n {
+                let i = rng.usize_below(rdom.len());
+                let bucket = &rbuckets[rdom[i].bucket as usize];
+                let j = if rng.chance(7, 8) { *rng.pick(bucket) } else { rng.usize_below(rdom.len()) };
+                let k = if rng.chance(7, 8) { *rng.pick(bucket) } else { rng.usize_below(rdom.len()) };
+                let (a, bb, cc) = (&rdom[i].uri, &rdom[j].uri, &rdom[k].uri);
+                if a == bb && bb == cc {
+                    eq_chains += 1;
+                    if !(a == cc) || !(cc == a) {
+                        f.push("C12:rsync-eq-not-transitive".into(), "a == b and b == c but a != c".into(),
+                            json!({"a": show(&rdom[i].text), "b": show(&rdom[j].text), "c": show(&rdom[k].text)}));
+                    }
+                }
+                if (a == bb) != (bb == a) {
+                    f.push("C12:rsync-eq-not-symmetric".into(), "a == b differs from b == a".into(),
+                        json!({"a": show(&rdom[i].text), "b": show(&rdom[j].text)}));
+                }
+                if a.is_parent_of(bb) && bb.is_parent_of(cc) && !a.is_parent_of(cc) {
+                    f.push("C12:rsync-is_parent_of:not-transitive".into(), "a is parent of b, b is parent of c, but a is not parent of c".into(),
+                        json!({"a": show(&rdom[i].text), "b": show(&rdom[j].text), "c": show(&rdom[k].text)}));
+                }
+                // equal replacement on the child side
+                if a == bb && a.is_parent_of(cc) != bb.is_parent_of(cc) {
+                    f.push("C12:rsync-is_parent_of:not-invariant-under-equality".into(), "a == b but they disagree on being parent of c".into(),
+                        json!({"a": show(&rdom[i].text), "b": show(&rdom[j].text), "c": show(&rdom[k].text)}));
+                }
+            }
+            c.evals += n;
+        }
+        if hdom.len() >= 3 {
+            // triples inside reference-equality classes and their neighbours
+            let mut by_cls: HashMap<u32, Vec<usize>> = HashMap::new();
+            for (i, e) in hdom.iter().enumerate() {
+                by_cls.entry(e.cls).or_default().push(i);
+            }
+            for _ in 0..n {
+                let i = rng.usize_below(hdom.len());
+                let class = &by_cls[&hdom[i].cls];
+                let j = if rng.chance(3, 4) { *rng.pick(class) } else { rng.usize_below(hdom.len()) };
+                let k = if rng.chance(3, 4) { *rng.pick(class) } else { rng.usize_below(hdom.len()) };
+                let (a, bb, cc) = (&hdom[i].uri, &hdom[j].uri, &hdom[k].uri);
+                if a == bb && bb == cc {
+                    eq_chains += 1;
+                    if !(a == cc) {
+                        f.push("C12:https-eq-not-transitive".into(), "a == b and b == c but a != c".into(),
+                            json!({"a": show(&hdom[i].text), "b": show(&hdom[j].text), "c": show(&hdom[k].text)}));
+                    }
+                }
+                if (a == bb) != (bb == a) {
+                    f.push("C12:https-eq-not-symmetric".into(), "a == b differs from b == a".into(),
+                        json!({"a": show(&hdom[i].text), "b": show(&hdom[j].text)}));
+                }
+            }
+            c.evals += n;
+        }
+        ctx.obs("sampled_triples_all_equal", eq_chains);
+        f.flush(ctx);
+    }
+
+    //---- 4. random byte strings and single-byte substitutions ---------------
+    {
+        let mut rng = ctx.rng("bytes");
+        let n = ctx.stage_budget((900_000, 16_000_000), 100_000, 80 * miri_scale, 0);
+        let seeds: [&[u8]; 6] = [
+            b"rsync://host/module/foo/bar", b"rsync://a.b:873/m/x/", b"https://example.com/a/b.xml",
+            b"https://h", b"RSYNC://H/M/", b"rsync://h/m/.../x",
+        ];
+        for i in 0..n {
+            let text: Vec<u8> = match i % 6 {
+                0 => {
+                    let n = rng.below(24) as usize;
+                    rng.bytes(n)
+                }
+                1 | 2 => {
+                    let mut t = if i % 2 == 0 { b"rsync://".to_vec() } else { b"https://".to_vec() };
+                    let n = rng.below(20) as usize;
+                    t.extend(rng.bytes(n));
+                    t
+                }
+                3 => {
+                    // printable ASCII incl. the forbidden punctuation
+                    let mut t = if rng.bool() { b"rsync://h/m/".to_vec() } else { b"https://h/".to_vec() };
+                    let len = rng.below(16);
+                    t.extend((0..len).map(|_| rng.range(0x20, 0x7f) as u8));
+                    t
+                }
+                _ => {
+                    // substitute one byte of a valid URI by an arbitrary byte
+                    let mut t = rng.pick(&seeds).to_vec();
+                    let pos = rng.usize_below(t.len());
+                    t[pos] = rng.below(256) as u8;
+                    t
+                }
+            };
+            let (r, h) = offer(ctx, &mut c, &text, "parse-random-bytes");
+            if i < 2_000 {
+                let kind = ["random", "scheme+random", "scheme+random", "scheme+printable", "substitution", "substitution"][(i % 6) as usize];
+                ctx.sig(&format!("bytes kind={kind} rsync={} https={} nonascii={}", r.is_some(), h.is_some(), text.iter().any(|b| *b >= 0x80)));
+            }
+        }
+        // every byte value at every position of the seeds (systematic, shard 0 only)
+        if ctx.shard == 0 && ctx.stage != Stage::Miri {
+            for s in seeds.iter() {
+                for pos in 0..s.len() {
+                    for v in 0..=255u8 {
+                        let mut t = s.to_vec();
+                        t[pos] = v;
+                        offer(ctx, &mut c, &t, "parse-substitution");
+                    }
+                }
+            }
+            ctx.sig("bytes systematic substitution of every byte value at every position");
+        }
+    }
+
+    //---- 5. structured random families (longer paths, full character set) ---
+    {
+        let mut rng = ctx.rng("families");
+        // a family costs ~700 law evaluations: under Miri only the thorough tier affords one per shard
+        let n = if miri && ctx.tier == Tier::Quick { 0 } else { ctx.stage_budget((90_000, 1_600_000), 10_000, 1, 0) };
+        for fi in 0..n {
+            // rsync
+            let texts = rsync_family(&mut rng);
+            let mut items = Vec::new();
+            for t in &texts {
+                let (r, _) = offer(ctx, &mut c, t, "parse-family");
+                match r {
+                    Some(u) => items.push((t.clone(), u)),
+                    None => ctx.obs("family_member_rejected", 1),
+                }
+            }
+            let args: Vec<Vec<u8>> = (0..3).map(|_| rand_join_arg(&mut rng)).collect();
+            let res = ctx.no_panic("rsync-family", || json!({"family": texts.iter().map(|t| show(t)).collect::<Vec<_>>()}), || {
+                let mut f = Findings::default();
+                let (dom, _) = build_domain(items, true);
+                let mut n = 0u64;
+                let mut related = 0u64;
+                let (mut ok, mut err) = (0u64, 0u64);
+                for i in 0..dom.len() {
+                    for j in 0..dom.len() {
+                        let (rel, _) = rsync_pair(&dom, i, j, &mut f);
+                        if rel {
+                            related += 1;
+                        }
+                        n += 1;
+                    }
+                    for a in &args {
+                        let (_, joined) = rsync_join(&dom[i].uri, a, &mut f);
+                        if joined { ok += 1 } else { err += 1 }
+                        n += 1;
+                    }
+                }
+                for i in 0..dom.len() {
+                    for j in 0..dom.len() {
+                        if !dom[i].uri.is_parent_of(&dom[j].uri) {
+                            continue;
+                        }
+                        for k in 0..dom.len() {
+                            n += 1;
+                            if dom[j].uri.is_parent_of(&dom[k].uri) && !dom[i].uri.is_parent_of(&dom[k].uri) {
+                                f.push("C12:rsync-is_parent_of:not-transitive".into(), "a is parent of b, b is parent of c, but a is not parent of c".into(),
+                                    json!({"a": show(&dom[i].text), "b": show(&dom[j].text), "c": show(&dom[k].text)}));
+                            }
+                        }
+                    }
+                }
+                (f, n, related, ok, err, dom.len())
+            });
+            if let Some((f, n, related, ok, err, size)) = res {
+                c.evals += n;
+                c.joins_ok += ok;
+                c.joins_err += err;
+                f.flush(ctx);
+                if fi < 3_000 {
+                    ctx.sig(&format!("rsync family size={size} related-pairs={}", related.min(40)));
+                }
+                if fi == 0 {
+                    ctx.sample("rsync family", || json!({"members": texts.iter().map(|t| show(t)).collect::<Vec<_>>(), "related_pairs": related}));
+                }
+            }
+            // https
+            let texts = https_family(&mut rng);
+            let mut items = Vec::new();
+            for t in &texts {
+                let (_, h) = offer(ctx, &mut c, t, "parse-family");
+                match h {
+                    Some(u) => items.push((t.clone(), u)),
+                    None => ctx.obs("family_member_rejected", 1),
+                }
+            }
+            let args: Vec<Vec<u8>> = (0..3).map(|_| rand_join_arg(&mut rng)).collect();
+            let res = ctx.no_panic("https-family", || json!({"family": texts.iter().map(|t| show(t)).collect::<Vec<_>>()}), || {
+                let mut f = Findings::default();
+                let (dom, _) = build_domain(items, false);
+                let mut n = 0u64;
+                let (mut ok, mut err) = (0u64, 0u64);
+                for a in dom.iter() {
+                    for bb in dom.iter() {
+                        n += 1;
+                        let eq = a.uri == bb.uri;
+                        if eq != (a.cls == bb.cls) {
+                            f.push("C12:https-eq-vs-reference".into(), format!("(a == b) is {eq}, reference equality says otherwise"),
+                                json!({"a": show(&a.text), "b": show(&bb.text)}));
+                        }
+                        if eq && a.hash != bb.hash {
+                            f.push("C12:https-eq-hash".into(), "equal URIs hash differently".into(), json!({"a": show(&a.text), "b": show(&bb.text)}));
+                        }
+                    }
+                    for arg in &args {
+                        let (_, joined) = https_join(&a.uri, arg, &mut f);
+                        if joined { ok += 1 } else { err += 1 }
+                        n += 1;
+                    }
+                }
+                (f, n, ok, err)
+            });
+            if let Some((f, n, ok, err)) = res {
+                c.evals += n;
+                c.joins_ok += ok;
+                c.joins_err += err;
+                f.flush(ctx);
+            }
+        }
+    }
+
+    //---- evidence ------------------------------------------------------------
+    ctx.evals(c.evals);
+    ctx.obs("rsync_accepted", c.rsync_accepted);
+    ctx.obs("rsync_rejected", c.rsync_rejected);
+    ctx.obs("https_accepted", c.https_accepted);
+    ctx.obs("https_rejected", c.https_rejected);
+    ctx.obs("joins_ok", c.joins_ok);
+    ctx.obs("joins_rejected", c.joins_err);
+    ctx.obs("parent_some", c.parents_some);
+    ctx.obs("parent_none", c.parents_none);
+    ctx.obs("rsync_rejected_though_statement_allows", c.model_valid_but_rejected);
+    if c.model_valid_but_rejected > 0 {
+        ctx.notes.push(
+            "some rsync texts the statement would allow were rejected by the parser (authority '.' or '..', e.g. rsync://./a/); \
+             the statement does not oblige acceptance, so this is recorded only"
+                .into(),
+        );
+    }
+    if c.rsync_accepted == 0 || c.https_accepted == 0 {
+        ctx.notes.push("no URI was accepted by one of the parsers: nothing could be observed".into());
+    }
+    if ctx.shard == 0 {
+        // two literal pairs for the reader
+        if let (Ok(a), Ok(bb)) = (Rsync::from_str("rsync://a/b/a"), Rsync::from_str("RSYNC://A/b/")) {
+            ctx.sample("rsync pair", || json!({
+                "self": a.as_str(), "other": bb.as_str(), "relative_to": a.relative_to(&bb),
+                "other_is_parent_of_self": bb.is_parent_of(&a), "eq": a == bb,
+            }));
+        }
+        if let (Ok(a), Ok(bb)) = (Https::from_str("https://a/b"), Https::from_str("HTTPS://A/b")) {
+            ctx.sample("https pair", || json!({"a": a.as_str(), "b": bb.as_str(), "eq": a == bb, "hash_eq": hash_of(&a) == hash_of(&bb)}));
+        }
+    }
 }
